@@ -97,7 +97,7 @@ def writeField (arch : Endian) (pf : PField) (k : SlotKind) (v : Val) : Except E
       | .fs (some xs) => xs.map Val.f
       | _ => []
     let ek : Sc := match k with | .sl e => e | _ => .u 8
-    let max := min (elems.length % 256) pf.length          -- byte(value.Len()), capped at the profile length
+    let max := min elems.length pf.length                  -- value.Len(), capped at the profile length
     let invW := Base.size (tcBase pf.tcode)                -- the padding value has the base type's own Go type
     match concatE ((elems.take max).map (encodeScalar arch pf ek)) with
     | .error e => .error e
